@@ -95,9 +95,9 @@ SUBMONITORS = ["mon:foreign-registry-unchanged", "mon:D1-default_unit_symbol_lut
 
 def batches(tier, seed):
     if tier == "quick":
-        nb, per, steps = 24, 11, 30
+        nb, per, steps = 32, 12, 30
     else:
-        nb, per, steps = 96, 20, 60
+        nb, per, steps = 96, 40, 60
     return [("hist/%d" % i, {"seed": seed, "n": per, "steps": steps, "tier": tier}) for i in range(nb)]
 
 
